@@ -2,6 +2,7 @@ SPECIFICATION Spec
 CONSTANT Bug = "call_before_rules"
 CONSTANT MaxDefects = 2
 CONSTANT MaxValidations = 1
+CONSTANT AllowForever = FALSE
 CONSTANT MaxPending = 1
 INVARIANT ProviderLast
 CHECK_DEADLOCK FALSE
